@@ -1,9 +1,26 @@
 #!/bin/bash
-# tools/seedtest.sh <seeded-id> <property> [tier]  — applies /verif/seeded/<id>/patch.diff to /repo, runs the check, reverts.
+# tools/seedtest.sh <seeded-id-or-dir> <property> [tier]
+# Runs a check against a seeded breaking change. Default: on a scratch worktree of /repo HEAD (outside /repo and
+# /verif) through VERIF_REPO, so /repo is not touched and concurrent runs do not disturb each other.
+# With SEED_IN_PLACE=1 it does what the task brief describes instead: git -C /repo apply, run, git checkout.
 set -u
 ID=$1; PROP=$2; TIER=${3:-quick}
-cd /repo && git diff --quiet || { echo "/repo dirty"; exit 2; }
-git -C /repo apply /verif/seeded/$ID/patch.diff || { echo "patch does not apply"; exit 3; }
-cd /verif && VERIF_EVIDENCE_DIR=/verif/work/evidence-scratch ./check $PROP $TIER > /tmp/seedtest_$ID.log 2>&1; rc=$?
-git -C /repo checkout -- .
-echo "seed $ID vs $PROP $TIER: exit $rc"; grep -c '^VIOLATION' /tmp/seedtest_$ID.log; grep '^VIOLATION' /tmp/seedtest_$ID.log | cut -c1-300 | head -3; grep -E "^(INCONCLUSIVE|HELD)" /tmp/seedtest_$ID.log | cut -c1-300 | head -3
+DIR=$ID; [ -d "$DIR" ] || DIR=/verif/seeded/$ID
+NAME=$(basename $DIR)_$$
+export GOFLAGS=-mod=mod GOPROXY=off GOSUMDB=off GOTOOLCHAIN=local
+LOG=/tmp/seedtest_$NAME.log
+if [ "${SEED_IN_PLACE:-}" = 1 ]; then
+  cd /repo && git diff --quiet || { echo "/repo dirty"; exit 2; }
+  git -C /repo apply $DIR/patch.diff || { echo "patch does not apply"; exit 3; }
+  (cd /verif && VERIF_EVIDENCE_DIR=/verif/work/evidence-scratch ./check $PROP $TIER > $LOG 2>&1); rc=$?
+  git -C /repo checkout -- .
+else
+  WT=/tmp/seedwt_$NAME
+  git -C /repo worktree add --detach $WT HEAD -q || exit 2
+  if ! git -C $WT apply $DIR/patch.diff; then echo "patch does not apply"; git -C /repo worktree remove --force $WT; exit 3; fi
+  (cd /verif && VERIF_REPO=$WT ./check $PROP $TIER > $LOG 2>&1); rc=$?
+  git -C /repo worktree remove --force $WT
+fi
+echo "seed $(basename $DIR) vs $PROP $TIER: exit $rc  violations=$(grep -c '^VIOLATION' $LOG)"
+grep '^VIOLATION' $LOG | cut -c1-260 | head -3; grep -E "^(INCONCLUSIVE|HELD)" $LOG | cut -c1-300 | head -3
+exit 0
